@@ -34,6 +34,7 @@ struct Subject {
     asn_TYPE_descriptor_t *td = nullptr;
     void *st = nullptr;
     Plan head;          // property/program/type/value + damage ops
+    bool sweep = false; // alignment sweep subject: big and numerous, so only the PER encoder (the one with a staging buffer) and only callback failures
 };
 
 struct Ref { ssize_t n = -1; long calls = 0; int err = 0; Bytes bytes; };
@@ -174,6 +175,18 @@ static bool build_subject(uint64_t seed, Subject &s, bool *damaged, uint64_t ind
         *damaged = true;
         return true;
     }
+    {   // sweep: where the program has the Batch type, its exact-fragment value (16384 elements) at every label length, i.e. alignment
+        const uint64_t base = pdu_types().size();
+        asn_TYPE_descriptor_t *bt = pdu_by_name("Batch");
+        if(bt && index >= base && index < base + 64) {
+            std::string spec = "bulk:batch.exact-fragments:" + L((long)(index - base));
+            s.td = bt; s.st = value_from_spec(bt, spec);
+            if(!s.st) return false;
+            s.head.set("property", "C07"); s.head.set("program", SIM_PROGRAM); s.head.set("type", bt->name); s.head.set("value", spec);
+            *damaged = false; s.sweep = true; G.add("c07.alignment_sweep_subjects");
+            return true;
+        }
+    }
     ValueChoice v = choose_value(seed, 200);
     s.td = v.td;
     std::string spec = v.origin;
@@ -202,6 +215,7 @@ static bool build_subject(uint64_t seed, Subject &s, bool *damaged, uint64_t ind
 
 static void explore(Subject &s, bool thorough, Rng &r) {
     for(Syntax sy : ENC_SYNTAXES) {
+        if(s.sweep && sy != SY_UPER) continue;
         std::string hs = s.head.str();
         status_head(hs);
         // fault-free reference
@@ -216,9 +230,10 @@ static void explore(Subject &s, bool thorough, Rng &r) {
         size_t unit = (size_t)std::max<ssize_t>(ref.n, 16) + 64 * (size_t)ref.calls;
         size_t wb = (thorough ? (64u << 20) : (6u << 20)) / unit;
         long cap = (long)std::min<size_t>(thorough ? 4096 : 384, std::max<size_t>(wb / 4, 4));
+        if(s.sweep) cap = 1;
         std::vector<long> ks;
         if(ref.calls <= cap) { for(long k = 0; k < ref.calls; k++) ks.push_back(k); G.add("c07.cb_enumerated_fully"); }
-        else { for(long i = 0; i < cap; i++) ks.push_back((long)r.below((uint64_t)ref.calls)); ks.push_back(0); ks.push_back(ref.calls - 1); G.add("c07.cb_sampled"); }
+        else { for(long i = 0; i < cap; i++) ks.push_back((long)r.below((uint64_t)ref.calls)); ks.push_back(0); for(long d = 1; d <= (s.sweep ? 4 : 8) && d <= ref.calls; d++) ks.push_back(ref.calls - d);   /* the calls that carry trailers and terminators */ G.add("c07.cb_sampled"); }
         bool stop = false;
         for(long k : ks) {
             for(int sticky = 0; sticky < 2 && !stop; sticky++) {
@@ -229,7 +244,7 @@ static void explore(Subject &s, bool thorough, Rng &r) {
             }
             if(stop) break;
         }
-        if(stop) continue;
+        if(stop || s.sweep) continue;
         // every buffer size 0..n+1
         size_t n = ref.n >= 0 ? (size_t)ref.n : 8;
         size_t scap = std::min<size_t>(thorough ? 8192 : 768, std::max<size_t>(wb / 2, 8));
